@@ -35,6 +35,7 @@ func main() {
 		{"fingerprints.json", extractFingerprints},
 		{"Facts.lean", extractFacts},
 		{"Compile.lean", extractCompile},
+		{"Pool.lean", extractPool},
 	}
 	for _, g := range gens {
 		s, err := g.fn(*repo)
